@@ -7,5 +7,8 @@ MCEntries  == {"rand", "det"}                      \* randomly initialised routi
 MCRandom   == [e \in MCEntries |-> e = "rand"]
 MCSeedRand == {"rand"}                             \* only the random class is called with a seed ...
 MCSeedAll  == {"rand", "det"}                      \* ... thorough: also a deterministic routine that accepts one
+MCNoObjs   == {}
+MCObjs     == {"o1"}
+MCObjSeed  == [o \in MCObjs |-> 1]                 \* the object is constructed with random_state = seed 1
 GraphView  == S
 =============================================================================
